@@ -197,6 +197,14 @@ def gen_plan(seed, tier):
     elif k == "advance":
       st["dt"] = r.pick([0.5, 1, 2.5])
     steps.append(st)
+    rs = Rng(mix(seed, "stray", len(steps)))
+    if rs.chance(0.05):
+      # a well-formed message the switch has nothing to do with (an error
+      # report from the controller, a reply type): no answer is due, and
+      # the requests behind it in the same segment still are
+      steps.append({"op": "stray", "xid": _xid(rs), "flush": rs.chance(0.3),
+                    "what": rs.pick(["error", "error", "barrier_reply",
+                                     "get_config_reply"])})
     rp = Rng(mix(seed, "portev", len(steps)))
     if rp.chance(0.06):
       # something local happens to the switch's ports (an interface is
@@ -319,6 +327,14 @@ def _drive(sim, world, plan, known, hit_known):
       E("echo", xid, body=body)
     elif op == "echo_reply":
       world.send(W.enc_echo_reply(xid, b"zz"))
+    elif op == "stray":
+      sim.probes["stray_" + st["what"]] += 1
+      if st["what"] == "error":
+        world.send(W.enc_error(xid, 1, 1, b"\x01\x0a\x00\x08\0\0\0\x07"))
+      elif st["what"] == "barrier_reply":
+        world.send(W.enc_barrier_reply(xid))
+      else:
+        world.send(W.msg(W.GET_CONFIG_REPLY, xid, struct.pack("!HH", 0, 128)))
     elif op == "features":
       world.send(W.enc_features_request(xid))
       E("features", xid, ports={k: dict(v) for k, v in
